@@ -618,6 +618,13 @@ func calculateHashes(numLeaves uint64, delHashes []Hash, proof Proof) (hashAndPo
 			// the next proof hash to calculate the parent.
 			sibHash = proof.Proof[proofHashIdx]
 			proofHashIdx++
+
+			// An empty hash marks a deleted node when calculating the
+			// hashes after a deletion. A node with a deleted sibling has
+			// moved up so an empty hash is never a part of a valid proof.
+			if sibHash == empty {
+				return hashAndPos{}, nil, fmt.Errorf("invalid proof. Empty proof hash")
+			}
 		}
 
 		// Calculate the next hash.
